@@ -206,4 +206,74 @@ example : Evals σ₀ 1 (.call (var "+") [var "x", var "y"] none) (.ok (num 12))
   .call (.sym rfl) (.cons (.sym rfl) (.cons (.sym rfl) .nil)) rfl
     (.of_loop (.builtin (by decide) rfl rfl (by simp)))
 
+/-! ## 6. MAIN: the model refines the reference semantics
+
+`Ref.eval` (`RuschmSpec/Ref.lean`) is the direct-style evaluator written from the R7RS rules: no
+trampoline, a procedure call runs the whole body by plain recursion.  Stores are compared after
+`Store.erase` (the activation-depth instrumentation `depth`/`maxDepth` is not semantics: the
+reference never touches it).  Outcomes are compared with `Ref.Agree`: equal values; equal errors,
+except that where the reference reports a non-procedure operator (R7RS leaves the order of these
+checks open) the model — whose trampoline evaluates a pending tail call with
+`eval_procedure_call`, operands first, error unlocated — may report another error. -/
+
+/-- Every outcome of the model's `evalExpr` that is not the fuel error is the outcome of the
+reference evaluator (for some fuel), with the same final store. -/
+theorem model_refines_ref {n σ ρ e r σ'} (h : evalExpr n σ ρ e = (r, σ')) (hr : NotFuel r) :
+    ∃ m r', Ref.eval m σ.erase ρ e = (r', σ'.erase) ∧ Agree r r' :=
+  (refines_all n).expr h hr
+
+/-- … exactly, for values: the model computes the value the reference semantics assigns. -/
+theorem model_refines_ref_value {n σ ρ e v σ'} (h : evalExpr n σ ρ e = (.ok v, σ')) :
+    ∃ m, Ref.eval m σ.erase ρ e = (.ok v, σ'.erase) :=
+  (refines_all n).expr_ok h
+
+/-- … and for errors: the reference fails too, in the same store, with the same error unless the
+reference's error is a non-procedure operator. -/
+theorem model_refines_ref_error {n σ ρ e er σ'} (h : evalExpr n σ ρ e = (.error er, σ')) (hr : er.1 ≠ .fuel) :
+    ∃ m er', Ref.eval m σ.erase ρ e = (.error er', σ'.erase) ∧ (er' = er ∨ ∃ l, er' = (.nonProcedure, l)) := by
+  obtain ⟨m, er', hm, ha⟩ := (refines_all n).expr_err h (.error_of (l := er.2) hr)
+  exact ⟨m, er', hm, ha.imp Eq.symm id⟩
+
+/-- The same for a procedure application (one activation of `apply_procedure`, trampoline
+included) against `Ref.apply`. -/
+theorem applyProcedure_refines_ref {n σ p args env r σ'} (h : applyProcedure n σ p args env = (r, σ'))
+    (hr : NotFuel r) : ∃ m r', Ref.apply m σ.erase p args = (r', σ'.erase) ∧ Agree r r' :=
+  (refines_all n).proc h hr
+
+/-- Fuel-free form: if `e` evaluates (in the sense of `Evals`) to a value, the reference evaluates it
+to that value. -/
+theorem evals_value_ref {σ ρ e v σ'} (h : Evals σ ρ e (.ok v) σ') :
+    ∃ m, Ref.eval m σ.erase ρ e = (.ok v, σ'.erase) := by
+  obtain ⟨_, n, hn⟩ := evals_iff.mp h
+  exact model_refines_ref_value hn
+
+/-- A store that carries no instrumentation is its own erasure (so for such a start store the
+reference runs from the very same store). -/
+theorem erase_eq_self {σ : Store} (h₁ : σ.depth = 0) (h₂ : σ.maxDepth = 0) : σ.erase = σ := by
+  cases σ; simp_all [Store.erase]
+
+/-- a loop written with a tail call and an internal definition:
+`((lambda (n) (define (go i acc) (if i (go #f (+ acc n)) acc)) (go #t 1)) 41)` — the model (through
+the trampoline) and the reference (by plain recursion) both give 42 -/
+def loopProg : Expr :=
+  .call (.lambda (.mk ⟨["n"], none⟩
+      [.mk "go" (.lambda (.mk ⟨["i", "acc"], none⟩ []
+          [.cond (var "i") (.call (var "go") [.prim (.bool false) none, .call (var "+") [var "acc", var "n"] none] none)
+            (some (var "acc")) none]) none) none]
+      [.call (var "go") [.prim (.bool true) none, lit 1] none]) none)
+    [lit 41] none
+
+example : (evalExpr 20 σ₀ 1 loopProg).1 = .ok (num 42) ∧ (Ref.eval 20 σ₀.erase 1 loopProg).1 = .ok (num 42) ∧
+    (evalExpr 20 σ₀ 1 loopProg).2.erase = (Ref.eval 20 σ₀.erase 1 loopProg).2 := by
+  refine ⟨?_, ?_, ?_⟩ <;> with_unfolding_all rfl
+
+/-- the two orders of the call checks: in tail position `(1 (car 2))` gives the operand's type error
+in the model, the non-procedure error in the reference -/
+example :
+    (evalExpr 20 σ₀ 1 (.call (.lambda (.mk ⟨[], none⟩ [] [.call (lit 1) [.call (var "car") [lit 2] none] none]) none) [] none)).1
+      = .error (.type, none) ∧
+    (Ref.eval 20 σ₀.erase 1 (.call (.lambda (.mk ⟨[], none⟩ [] [.call (lit 1) [.call (var "car") [lit 2] none] none]) none) [] none)).1
+      = .error (.nonProcedure, none) := by
+  refine ⟨?_, ?_⟩ <;> with_unfolding_all rfl
+
 end Ruschm.C01
